@@ -62,6 +62,12 @@ def _seg_job(job):
             call(fn, g, e, v, **dict(kw, age=(age or 40) + 5))
             if age:
                 call(fn, g, e, v)
+            # ... and calls the function must refuse (unknown gender / event, with and without an age): a refusal must
+            # not leave anything behind either (seed C01-g: an error path remembered the event as "no factors")
+            call(fn, 'W', e, v, age=(age or 50))
+            call(fn, 'W', e, v)
+            call(fn, g, 'NOSUCH', v, age=(age or 50))
+            call(fn, g, e, 'x', age=(age or 50))
         r = call(fn, g, e, v, **kw)
         n += 1
         if prev is not None and prev[2] == r:
@@ -86,7 +92,12 @@ def _age_job(job):
     common.use_repo()
     import athlib
     g, e, c, esaa = job
-    vals = [call(athlib.athlon_score, g, e, c / 100.0, age=a, **({'esaa': True} if esaa else {})) for a in range(1, 126)]
+    vals = []
+    for a in range(1, 126):
+        if a % 16 == 3:          # refused calls in between (results discarded): nothing may be left behind
+            call(athlib.athlon_score, 'W', e, c / 100.0, age=a)
+            call(athlib.athlon_score, g, 'NOSUCH', c / 100.0, age=a)
+        vals.append(call(athlib.athlon_score, g, e, c / 100.0, age=a, **({'esaa': True} if esaa else {})))
     return {'k': 'age', 'g': g, 'e': e, 'c': c, 'esaa': bool(esaa), 'vals': vals, 'n': 125}
 
 
@@ -101,7 +112,14 @@ def _need_job(job):
         perf0 = int(round(p0 * 100)) if p0 is not None else -1
     except Exception:
         perf0 = -2
-    for t in targets:
+    for i, t in enumerate(targets):
+        if i % 50 == 7:              # refused calls in between (results discarded): nothing may be left behind
+            for a in (('W', e, t), (g, 'NOSUCH', t), (g, e, 'x')):
+                try:
+                    athlib.athlon_performance_needed(*a)
+                except Exception:
+                    pass
+            call(athlib.athlon_score, 'W', e, 10.0, age=50)
         try:
             p = athlib.athlon_performance_needed(g, e, t)
         except Exception:
